@@ -4,9 +4,10 @@ from ..fdai import EnumV, AggV, K, SymV, RefV, Cell, Loc, TOP, load, snapshot
 from . import contrib as CB
 
 LEVEL = "other"
-TECHNIQUE = "FDAI operation tables of the two ErrorQueue impls (ArrayVec and Vec): which container operation each queue method performs, with which arguments, on which branch; sibling agreement (insert at the back, remove at index 0); default is_empty; overflow path reachable only on the Err edge of try_push"
-LEVEL_TEXT = "Each of the ten-line queue impls is enumerated path by path: the only container operations are try_push(err) / on failure pop() + try_push(QueueOverflow) / pop_at(0) / len / clear (ArrayVec) and push(err) / remove(0) behind an emptiness test / len / clear (Vec), with the operands checked. FIFO behaviour over histories then follows from the container contracts."
-LEVEL_NOTE = "Not decided: FIFO order over arbitrary operation histories is inferred on paper from the op table and the arrayvec/alloc container contracts (trusted); capacity 0. Trusted: rustc MIR, FDAI models."
+
+TECHNIQUE = "abstract interpretation of the four ErrorQueue methods of both impls (ArrayVec, Vec) on abstract queues of distinct symbolic entries - every fill level for capacities 1..3 (bounded) and 0..4 (growable) - with the container operations interpreted by contract models; resulting contents/return values compared with the FIFO-with-overflow-marker specification"
+LEVEL_TEXT = "For each queue method and each abstract state (capacity, fill level) the final queue contents and the returned value are computed from the MIR and compared with the specification: append at the back, newest replaced by -350 when full, oldest returned first, order of the rest preserved, count, clear. The table is complete over the abstract states because the methods never inspect the entries themselves."
+LEVEL_NOTE = "Not decided: capacity 0 (pop of an empty queue panics by design of the overflow path); capacities above 3 (the methods are uniform in the capacity). Trusted: rustc MIR, the arrayvec / Vec contract models in this file."
 
 EQ = "error::ErrorQueue"
 
@@ -18,98 +19,288 @@ def impl_body(u, self_contains, method):
     return bs[0]
 
 
+# ---- abstract containers -------------------------------------------------------------------------------------------
+# The queue is an abstract list of distinct symbolic entries with a capacity (None = growable). The container operations
+# of arrayvec::ArrayVec / alloc::vec::Vec are interpreted on it according to their documented contracts; an operation
+# without a model havocs the list (and the table then fails closed).
+
+def _q(eng, st, v):
+    v = eng.resolve(st, v)
+    n = 0
+    cell = None
+    while isinstance(v, RefV) and n < 6:
+        cell = v.cell
+        v = eng.resolve(st, load(Loc(v.cell, v.path)))
+        n += 1
+    return v if isinstance(v, fdai.ListV) else None
+
+
+def _cap(st):
+    return st.extra.get("cap")
+
+
+def _panic(eng, st, fr, t, name, why):
+    st.outcome = "panic"
+    st.trace.append(fdai.Event("panic", name, None, (why,), fr.bi, t.get("line"), len(st.frames), fr.body.npath))
+    return [(st, TOP)]
+
+
+def _ev(st, fr, t, name, rname, args):
+    st.trace.append(fdai.Event("call", name, rname, tuple(snapshot(a) for a in args[1:]), fr.bi, t.get("line"), len(st.frames), fr.body.npath))
+
+
+def q_try_push(eng, st, fr, t, name, rname, args):
+    q = _q(eng, st, args[0])
+    if q is None:
+        return NotImplemented
+    _ev(st, fr, t, name, rname, args)
+    cap = _cap(st)
+    if cap is not None and len(q.cells) >= cap:
+        return fdai.mk_err(AggV("arrayvec::CapacityError", {0: args[1]}))
+    q.cells.append(Cell(args[1], "pushed%d" % len(q.cells)))
+    return fdai.mk_ok(fdai.UNIT)
+
+
+def q_push(eng, st, fr, t, name, rname, args):
+    q = _q(eng, st, args[0])
+    if q is None:
+        return NotImplemented
+    _ev(st, fr, t, name, rname, args)
+    cap = _cap(st)
+    if cap is not None and len(q.cells) >= cap:
+        return _panic(eng, st, fr, t, name, "push on a full ArrayVec")
+    q.cells.append(Cell(args[1], "pushed%d" % len(q.cells)))
+    return fdai.UNIT
+
+
+def q_pop(eng, st, fr, t, name, rname, args):
+    q = _q(eng, st, args[0])
+    if q is None:
+        return NotImplemented
+    _ev(st, fr, t, name, rname, args)
+    if not q.cells:
+        return fdai.mk_option(None)
+    return fdai.mk_option(q.cells.pop().v)
+
+
+def _idx(eng, st, v):
+    v = eng.resolve(st, v)
+    return v.v if isinstance(v, K) and isinstance(v.v, int) and not isinstance(v.v, bool) else None
+
+
+def q_pop_at(eng, st, fr, t, name, rname, args):
+    q = _q(eng, st, args[0])
+    i = _idx(eng, st, args[1])
+    if q is None or i is None:
+        return NotImplemented
+    _ev(st, fr, t, name, rname, args)
+    if i >= len(q.cells):
+        return fdai.mk_option(None)
+    return fdai.mk_option(q.cells.pop(i).v)
+
+
+def q_remove(eng, st, fr, t, name, rname, args):
+    q = _q(eng, st, args[0])
+    i = _idx(eng, st, args[1])
+    if q is None or i is None:
+        return NotImplemented
+    _ev(st, fr, t, name, rname, args)
+    if i >= len(q.cells):
+        return _panic(eng, st, fr, t, name, "remove index out of bounds")
+    return q.cells.pop(i).v
+
+
+def q_swap_remove(eng, st, fr, t, name, rname, args):
+    q = _q(eng, st, args[0])
+    i = _idx(eng, st, args[1])
+    if q is None or i is None:
+        return NotImplemented
+    _ev(st, fr, t, name, rname, args)
+    if i >= len(q.cells):
+        return _panic(eng, st, fr, t, name, "swap_remove index out of bounds")
+    last = q.cells.pop()
+    if i < len(q.cells):
+        out = q.cells[i]
+        q.cells[i] = last
+        return out.v
+    return last.v
+
+
+def q_swap_pop(eng, st, fr, t, name, rname, args):
+    q = _q(eng, st, args[0])
+    i = _idx(eng, st, args[1])
+    if q is None or i is None:
+        return NotImplemented
+    if i >= len(q.cells):
+        _ev(st, fr, t, name, rname, args)
+        return fdai.mk_option(None)
+    r = q_swap_remove(eng, st, fr, t, name, rname, args)
+    return fdai.mk_option(r)
+
+
+def q_insert(eng, st, fr, t, name, rname, args):
+    q = _q(eng, st, args[0])
+    i = _idx(eng, st, args[1])
+    if q is None or i is None:
+        return NotImplemented
+    _ev(st, fr, t, name, rname, args)
+    cap = _cap(st)
+    if i > len(q.cells) or (cap is not None and len(q.cells) >= cap):
+        return _panic(eng, st, fr, t, name, "insert out of bounds / full")
+    q.cells.insert(i, Cell(args[2], "inserted"))
+    return fdai.UNIT
+
+
+def q_len(eng, st, fr, t, name, rname, args):
+    q = _q(eng, st, args[0])
+    return NotImplemented if q is None else K(len(q.cells))
+
+
+def q_is_empty(eng, st, fr, t, name, rname, args):
+    q = _q(eng, st, args[0])
+    return NotImplemented if q is None else K(len(q.cells) == 0)
+
+
+def q_is_full(eng, st, fr, t, name, rname, args):
+    q = _q(eng, st, args[0])
+    cap = _cap(st)
+    return NotImplemented if q is None or cap is None else K(len(q.cells) >= cap)
+
+
+def q_capacity(eng, st, fr, t, name, rname, args):
+    cap = _cap(st)
+    return NotImplemented if cap is None else K(cap)
+
+
+def q_remaining(eng, st, fr, t, name, rname, args):
+    q = _q(eng, st, args[0])
+    cap = _cap(st)
+    return NotImplemented if q is None or cap is None else K(cap - len(q.cells))
+
+
+def q_clear(eng, st, fr, t, name, rname, args):
+    q = _q(eng, st, args[0])
+    if q is None:
+        return NotImplemented
+    _ev(st, fr, t, name, rname, args)
+    del q.cells[:]
+    return fdai.UNIT
+
+
+def q_truncate(eng, st, fr, t, name, rname, args):
+    q = _q(eng, st, args[0])
+    i = _idx(eng, st, args[1])
+    if q is None or i is None:
+        return NotImplemented
+    _ev(st, fr, t, name, rname, args)
+    del q.cells[i:]
+    return fdai.UNIT
+
+
+def container_models():
+    ms = M.with_lists(M.FOLD_MODELS)
+    for pre in ("arrayvec::ArrayVec::", "alloc::vec::Vec::"):
+        ms.update({
+            pre + "try_push": q_try_push, pre + "push": q_push, pre + "pop": q_pop, pre + "pop_at": q_pop_at, pre + "remove": q_remove,
+            pre + "swap_remove": q_swap_remove, pre + "swap_pop": q_swap_pop, pre + "insert": q_insert, pre + "len": q_len, pre + "is_empty": q_is_empty,
+            pre + "is_full": q_is_full, pre + "capacity": q_capacity, pre + "remaining_capacity": q_remaining, pre + "clear": q_clear, pre + "truncate": q_truncate,
+        })
+    return ms
+
+
+def _is_overflow(v):
+    return "QueueOverflow" in M.err_codes(v) if not isinstance(v, SymV) else False
+
+
+def _contents(q):
+    out = []
+    for c in q.cells:
+        v = c.v
+        if isinstance(v, SymV):
+            out.append(v.id)
+        elif _is_overflow(v):
+            out.append("-350")
+        else:
+            out.append("?%r" % (v,))
+    return out
+
+
 def check_queues(R, rule_prefix="R12"):
+    """Decision tables of the ErrorQueue impls over every queue state up to the capacity (capacities 1..3 for the
+    bounded queue, lengths 0..4 for the growable one), compared with the FIFO-with-overflow-marker specification."""
     P = CB.prog()
     u = P.unit("scpi")
-    eng = fdai.Engine(P, u, inline=lambda n, r: r.endswith(("Error::new", "From<scpi::error::ErrorCode>>::from", "From<error::ErrorCode>>::from")) or "as core::convert::From<error::ErrorCode>>::from" in r, models={})
-    r1 = rule_prefix + ".1"
-    r2 = rule_prefix + ".2"
 
-    # ---- ArrayVec queue -----------------------------------------------------------------------------
-    b = impl_body(u, "arrayvec::ArrayVec", "push_back_error")
-    res = eng.run(b, [RefV(Cell(TOP, "queue"), (), True), SymV("err", "err")])
-    ps = [CB.Path(r) for r in res]
-    good = True
-    kinds = set()
-    for p in ps:
-        first = p.calls[0] if p.calls else None
-        if first is None or first.name.split("::")[-1] != "try_push" or first.args[0][:2] != ("ref", "queue") or first.args[1] != ("sym", "err", "err"):
-            good = False
+    def inl(n, r):
+        if r.startswith(("scpi::error::Error::", "scpi::error::ErrorCode::")) or "convert::From<error::ErrorCode>" in r or "convert::From<scpi::error::ErrorCode>" in r or r.endswith("Into<U>>::into"):
+            return True
+        return r.startswith("scpi::error::") and "ErrorQueue" not in r
+
+    eng = fdai.Engine(P, u, inline=inl, models=container_models(), loop_limit=16, max_paths=64)
+    r1, r2 = rule_prefix + ".1", rule_prefix + ".2"
+
+    def run_method(body, entries, cap, extra_args=()):
+        st = fdai.State()
+        st.extra["cap"] = cap
+        qcell = Cell(fdai.ListV([Cell(SymV("e%d" % i, "entry %d" % i), "e%d" % i) for i in range(entries)]), "queue")
+        st.extra["cells"] = {"queue": qcell}
+        res = eng.run(body, [RefV(qcell, (), True)] + list(extra_args), st)
+        out = []
+        for r in res:
+            qc = r.extra.get("cells", {}).get("queue")
+            out.append((r, _contents(qc.v) if qc is not None and isinstance(qc.v, fdai.ListV) else None))
+        return out
+
+    n_rows = 0
+    for who, caps, rule in (("arrayvec::ArrayVec", (1, 2, 3), r1), ("alloc::vec::Vec", (None,), r2)):
+        short = who.split("::")[-1]
+        try:
+            bodies = {m: impl_body(u, who, m) for m in ("push_back_error", "pop_front_error", "num_errors", "clear_errors")}
+        except facts.AnchorLost as e:
+            R.anchor_lost(rule, str(e))
             continue
-        v = p.assumed_variant("try_push", 0)
-        rest = [e for e in p.calls[1:] if e.name.split("::")[-1] not in ("into", "from")]
-        if v == "Ok":
-            kinds.add("fits")
-            if rest or p.r.outcome != "return":
-                good = False
-        elif v == "Err":
-            names = [e.name.split("::")[-1] for e in rest]
-            if names[:1] != ["pop"] or rest[0].args[0][:2] != ("ref", "queue"):
-                good = False
-                continue
-            if p.r.outcome == "panic":
-                kinds.add("overflow-panic-edge")
-                continue
-            if names != ["pop", "try_push"]:
-                good = False
-                continue
-            # the replacement element is QueueOverflow
-            codes = M.err_codes(_val(rest[1].args[1]))
-            if "QueueOverflow" not in repr(rest[1].args[1]):
-                good = False
-            kinds.add("overflow")
-        else:
-            good = False
-    R.check(good and {"fits", "overflow"} <= kinds, r1, "ArrayVec::push_back_error", "try_push(err); only if that fails: pop() the newest entry and try_push(QueueOverflow)",
-            "ArrayVec queue insertion must be `try_push(err)`, and only on failure `pop()` + `try_push(QueueOverflow)`: %s" % [p.describe() for p in ps], where=b.span)
-    # R12.5: unwraps only on the Err edge
-    unwraps_ok = all(p.assumed_variant("try_push", 0) == "Err" for p in ps if any(e.kind in ("panic",) for e in p.r.trace) or p.count("pop"))
-    R.check(unwraps_ok, rule_prefix + ".5", "ArrayVec::push_back_error:unwrap", "pop()/unwrap() are reached only after a failed try_push (queue full, hence non-empty for CAP >= 1)", "unwrap on the overflow path reachable when the queue is not full", where=b.span)
-
-    b = impl_body(u, "arrayvec::ArrayVec", "pop_front_error")
-    e = sym.norm(sym.Sym(b.mir).local(0))
-    ok = e[0] == "call" and e[1].split("::")[-1] == "pop_at" and e[3][0] == ("arg", 1, "self") and e[3][1][:2] == ("int", 0) and len(list(b.calls())) == 1
-    R.check(ok, r1, "ArrayVec::pop_front_error", "pop_at(0): removes and returns the oldest entry", "ArrayVec queue removal must be pop_at(0): %s" % sym.show(e), where=b.span)
-    for meth, callee in (("num_errors", "len"), ("clear_errors", "clear")):
-        b = impl_body(u, "arrayvec::ArrayVec", meth)
-        calls = [c.name.split("::")[-1] for c in b.calls()]
-        R.check(calls == [callee], r1, "ArrayVec::" + meth, callee + "()", "ArrayVec queue %s must be %s(): %s" % (meth, callee, calls), where=b.span)
-
-    # ---- Vec queue --------------------------------------------------------------------------------------
-    b = impl_body(u, "alloc::vec::Vec", "push_back_error")
-    res = eng.run(b, [RefV(Cell(TOP, "queue"), (), True), SymV("err", "err")])
-    ps = [CB.Path(r) for r in res]
-    ok = len(ps) == 1 and ps[0].names == ["push"] and ps[0].calls[0].args[1] == ("sym", "err", "err") and ps[0].calls[0].args[0][:2] == ("ref", "queue")
-    R.check(ok, r2, "Vec::push_back_error", "push(err): appended at the back", "Vec queue insertion must be push(err): %s" % [p.describe() for p in ps], where=b.span)
-    b = impl_body(u, "alloc::vec::Vec", "pop_front_error")
-    res = eng.run(b, [RefV(Cell(TOP, "queue"), (), True)])
-    ps = [CB.Path(r) for r in res]
-    kinds = set()
-    good = len(ps) == 2
-    for p in ps:
-        emp = p.assumed_ret("is_empty", 0)
-        if p.names[:1] != ["is_empty"]:
-            good = False
-        elif emp is True:
-            kinds.add("empty")
-            good = good and p.names == ["is_empty"] and isinstance(p.r.retval, EnumV) and p.r.retval.name == "None"
-        elif emp is False:
-            kinds.add("nonempty")
-            rm = p.call("remove")
-            good = good and p.names == ["is_empty", "remove"] and rm.args[1] == ("K", 0) and isinstance(p.r.retval, EnumV) and p.r.retval.name == "Some" and CB.ret_of(snapshot(p.r.retval.fields.get(0)), "remove")
-        else:
-            good = False
-    R.check(good and kinds == {"empty", "nonempty"}, r2, "Vec::pop_front_error", "None when empty, else Some(remove(0)) (order-preserving removal of the oldest entry)", "Vec queue removal must be `if is_empty { None } else { Some(remove(0)) }`: %s" % [p.describe() for p in ps], where=b.span)
-    for meth, callee in (("num_errors", "len"), ("clear_errors", "clear")):
-        b = impl_body(u, "alloc::vec::Vec", meth)
-        calls = [c.name.split("::")[-1] for c in b.calls()]
-        R.check(calls == [callee], r2, "Vec::" + meth, callee + "()", "Vec queue %s must be %s(): %s" % (meth, callee, calls), where=b.span)
+        bad = {m: [] for m in bodies}
+        for cap in caps:
+            for k in range(0, (cap if cap is not None else 4) + 1):
+                before = ["e%d" % i for i in range(k)]
+                n_rows += 4
+                # push_back_error
+                rs = run_method(bodies["push_back_error"], k, cap, [SymV("err", "the new error")])
+                exp = before + ["err"] if (cap is None or k < cap) else before[:-1] + ["-350"]
+                if len(rs) != 1 or rs[0][0].outcome != "return" or rs[0][1] != exp:
+                    bad["push_back_error"].append("capacity %s, holding %s: queue becomes %s, expected %s" % (cap, before, [(r.outcome, q) for r, q in rs], exp))
+                # pop_front_error
+                rs = run_method(bodies["pop_front_error"], k, cap)
+                ok = len(rs) == 1 and rs[0][0].outcome == "return" and rs[0][1] == before[1:]
+                if ok:
+                    rv = rs[0][0].retval
+                    if k == 0:
+                        ok = isinstance(rv, EnumV) and rv.name == "None"
+                    else:
+                        ok = isinstance(rv, EnumV) and rv.name == "Some" and isinstance(rv.fields.get(0), SymV) and rv.fields[0].id == "e0"
+                if not ok:
+                    bad["pop_front_error"].append("capacity %s, holding %s: returns %s and leaves %s; expected %s and %s" % (cap, before, [r.retval for r, _ in rs], [q for _, q in rs], "Some(e0)" if k else "None", before[1:]))
+                # num_errors
+                rs = run_method(bodies["num_errors"], k, cap)
+                if not (len(rs) == 1 and isinstance(rs[0][0].retval, K) and rs[0][0].retval.v == k and rs[0][1] == before):
+                    bad["num_errors"].append("holding %s: returns %s" % (before, [r.retval for r, _ in rs]))
+                # clear_errors
+                rs = run_method(bodies["clear_errors"], k, cap)
+                if not (len(rs) == 1 and rs[0][0].outcome == "return" and rs[0][1] == []):
+                    bad["clear_errors"].append("holding %s: leaves %s" % (before, [q for _, q in rs]))
+        texts = {"push_back_error": "appends at the back; when full the newest entry is replaced by -350 Queue overflow (older entries and their order untouched)",
+                 "pop_front_error": "removes and returns the oldest entry, the rest keeps its order; None when empty",
+                 "num_errors": "the number of entries", "clear_errors": "empties the queue"}
+        for m, b in bodies.items():
+            R.check(not bad[m], rule if m in ("push_back_error", "pop_front_error", "num_errors", "clear_errors") else rule, "%s::%s" % (short, m), texts[m] + " - over every fill level" + (" for capacities 1..3" if caps != (None,) else " 0..4"), "; ".join(bad[m][:3]), where=b.span)
+    R.count("queue_table_rows", n_rows)
     # ---- default is_empty ---------------------------------------------------------------------------------
     b = u.body("scpi::error::ErrorQueue::is_empty")
     e = sym.norm(sym.Sym(b.mir).local(0))
-    ok = e[0] == "binop" and e[1] == "Eq" and e[2][0] == "call" and e[2][1].endswith("num_errors") and e[3][:2] == ("int", 0)
+    ok = e[0] == "binop" and e[1] in ("Eq", "Le") and e[2][0] == "call" and e[2][1].endswith("num_errors") and e[3][:2] == ("int", 0)
+    ok = ok or (e[0] == "binop" and e[1] in ("Eq", "Ge") and e[3][0] == "call" and e[3][1].endswith("num_errors") and e[2][:2] == ("int", 0))
     R.check(ok, rule_prefix + ".4", "ErrorQueue::is_empty", "num_errors() == 0", "default is_empty must be num_errors() == 0: %s" % sym.show(e), where=b.span)
-    R.trust("arrayvec::ArrayVec::{try_push,pop,pop_at,len,clear} and alloc::vec::Vec::{push,remove,len,clear} contracts")
+    R.trust("arrayvec::ArrayVec / alloc::vec::Vec container contracts as modelled in sa/rules/c12.py (try_push, push, pop, pop_at, remove, swap_remove, insert, len, is_empty, is_full, clear, truncate)")
 
 
 def _val(x):
@@ -119,5 +310,5 @@ def _val(x):
 def run(R, tier):
     R.configs.append("dflt")
     check_queues(R, "R12")
-    # R12.3 sibling agreement is the conjunction of the two tables: both insert at the back and remove index 0
-    R.ok("R12.3", "siblings", "both impls insert at the back (try_push/push) and remove at index 0 (pop_at(0)/remove(0))")
+    # R12.3 sibling agreement is the conjunction of the two tables: both behave as the same FIFO specification
+    R.ok("R12.3", "siblings", "both impls are compared with the same FIFO specification (the bounded one additionally with the overflow marker)")
